@@ -393,6 +393,11 @@ pub struct TxPlan {
     /// spend an output of the block that is being rebroadcast right now (id − gp − 1): still spendable for
     /// Transaction::validate although it left the window
     pub old: bool,
+    /// pend the transaction in the OTHER node's pool (routed to that node) instead of the producer's
+    pub park: bool,
+    /// spend an input that a transaction pending in the other node's pool spends too (the one carrying the most
+    /// routing work): once the producer's block is delivered, that pending transaction is no longer spendable
+    pub conflict: bool,
 }
 #[derive(Clone, Debug, PartialEq)]
 pub enum Priv {
@@ -485,11 +490,11 @@ pub fn random_scenario(r: &mut Rng, idx: usize, thorough: bool) -> Scenario {
                 6 => 50_000_000 / dt.max(1) + 1,
                 _ => r.range(90_000, 105_000),
             };
-            txs.push(TxPlan { payer: r.below(4) as usize, fee, hops: r.below(5) as usize, big_input: false, pad: if r.coin(1, 10) { r.range(1, 5000) as usize } else { 0 }, old: false });
+            txs.push(TxPlan { payer: r.below(4) as usize, fee, hops: r.below(5) as usize, big_input: false, pad: if r.coin(1, 10) { r.range(1, 5000) as usize } else { 0 }, old: false, park: false, conflict: false });
         }
         if whale && i == whale_at {
             gt = false;
-            txs.push(TxPlan { payer: whale_payer, fee: r.range(20_000_000, 199_990_000), hops: r.below(3) as usize, big_input: true, pad: *r.pick(&[0usize, 100_000, 200_000, 400_000]), old: false });
+            txs.push(TxPlan { payer: whale_payer, fee: r.range(20_000_000, 199_990_000), hops: r.below(3) as usize, big_input: true, pad: *r.pick(&[0usize, 100_000, 200_000, 400_000]), old: false, park: false, conflict: false });
         }
         if whale && i == whale_at + 1 {
             gt = false;
@@ -508,6 +513,9 @@ pub fn random_scenario(r: &mut Rng, idx: usize, thorough: bool) -> Scenario {
         }
         let privileged = if r.coin(1, 40) { r.pick(&[Priv::Issuance, Priv::Atr, Priv::Fee]).clone() } else { Priv::None };
         rounds.push(Round { producer, gt, dt, txs, privileged });
+    }
+    if r.coin(1, 4) {
+        add_conflicts(r, &mut rounds);
     }
     Scenario {
         name: format!("random-{}", idx),
@@ -529,9 +537,87 @@ pub fn random_scenario(r: &mut Rng, idx: usize, thorough: bool) -> Scenario {
 }
 
 /// corpus first (the witnesses of the listed defects `w*.ops` lead, they also calibrate the flags), then random
+/// Scripted family "a delivered block makes pending work unspendable": node X pools a work-bearing routed
+/// transaction A and a small one B; the other node produces and delivers a block with a conflicting spend A' of A's
+/// input (A leaves X's pool, B stays); then X's producer fires inside the 2-heartbeat window at an offset where the
+/// work requirement lies between B's work and the former A+B total. A correct node declines (or produces a valid
+/// block when B alone suffices); a node whose work counter still includes A produces a block its own validator
+/// refuses. Swept over the offset, A's fee, B's fee, the hop counts, which node waits, and with/without a ticket.
+pub fn conflict_family() -> Vec<Scenario> {
+    let far = 2 * HB + 1;
+    let plain = |payer: usize, fee: u64, hops: usize| TxPlan { payer, fee, hops, big_input: false, pad: 0, old: false, park: false, conflict: false };
+    let mut v = vec![];
+    let mut k = 0;
+    for (fee_a, hops_a) in [(90_000u64, 1usize), (40_000, 2), (12_000, 1)] {
+        for (fee_b, hops_b) in [(0u64, 1usize), (150, 1), (900, 2)] {
+            for dt in [5_200u64, 9_000, 14_000, 2 * HB - 1] {
+                // keep the sweep small: a Latin-square style selection of the 36 combinations
+                if (k / 4 + k) % 3 != 0 {
+                    k += 1;
+                    continue;
+                }
+                let waits = k % 2; // the node whose pool holds A and B
+                let other = 1 - waits;
+                let mut rounds = vec![];
+                // two ordinary blocks first (burn fee settles at a known level, both nodes have produced once)
+                rounds.push(Round { producer: waits, gt: true, dt: far, txs: vec![plain(0, 10, 0)], privileged: Priv::None });
+                rounds.push(Round { producer: other, gt: true, dt: far, txs: vec![plain(1, 10, 0)], privileged: Priv::None });
+                // the other node produces: A and B are parked with the waiting node, A' conflicts with A
+                rounds.push(Round {
+                    producer: other,
+                    gt: true,
+                    dt: far,
+                    txs: vec![
+                        TxPlan { park: true, ..plain(2, fee_a, hops_a) },
+                        TxPlan { park: true, ..plain(3, fee_b, hops_b) },
+                        TxPlan { conflict: true, ..plain(2, 7, 0) },
+                    ],
+                    privileged: Priv::None,
+                });
+                // the waiting node's producer fires inside the window, twice (the second attempt a little later)
+                rounds.push(Round { producer: waits, gt: k % 3 != 1, dt, txs: vec![], privileged: Priv::None });
+                rounds.push(Round { producer: waits, gt: true, dt: (dt + 3_000).min(2 * HB - 1), txs: vec![], privileged: Priv::None });
+                // and the chain goes on
+                rounds.push(Round { producer: other, gt: true, dt: far, txs: vec![plain(0, 10, 1)], privileged: Priv::None });
+                v.push(Scenario { name: format!("conflict-{}", v.len()), gp: 8, issue: default_issue(None), rounds, prune_after: 50, target: 0, stake: 0 });
+                k += 1;
+            }
+        }
+    }
+    v
+}
+
+/// the same history inside a random scenario: at a few rounds the other node gets A and B parked and the producer a
+/// conflicting spend; the next round belongs to the waiting node and falls inside the 2-heartbeat window
+fn add_conflicts(r: &mut Rng, rounds: &mut Vec<Round>) {
+    let n = rounds.len();
+    let mut i = 1;
+    while i + 1 < n {
+        if r.coin(1, 3) {
+            let fee_a = *r.pick(&[3_000u64, 9_000, 20_000, 45_000, 95_000]);
+            let fee_b = *r.pick(&[0u64, 1, 40, 300, 2_000]);
+            let (pa, pb) = (r.below(4) as usize, r.below(4) as usize);
+            let (ha, hb_) = (r.range(1, 3) as usize, r.range(1, 2) as usize);
+            let producer = rounds[i].producer;
+            rounds[i].dt = r.range(2 * HB + 1, 4 * HB);
+            rounds[i].txs.push(TxPlan { payer: pa, fee: fee_a, hops: ha, big_input: false, pad: 0, old: false, park: true, conflict: false });
+            rounds[i].txs.push(TxPlan { payer: pb, fee: fee_b, hops: hb_, big_input: false, pad: 0, old: false, park: true, conflict: false });
+            rounds[i].txs.push(TxPlan { payer: pa, fee: r.range(0, 50), hops: r.below(2) as usize, big_input: false, pad: 0, old: false, park: false, conflict: true });
+            rounds[i + 1].producer = 1 - producer;
+            rounds[i + 1].dt = r.range(5_000, 2 * HB - 1);
+            rounds[i + 1].txs.clear();
+            rounds[i + 1].privileged = Priv::None;
+            i += 3;
+        } else {
+            i += 1;
+        }
+    }
+}
+
 pub fn scenarios(seed: u64, tier: &str) -> Vec<Scenario> {
     let thorough = tier == "thorough";
     let mut v = corpus();
+    v.extend(conflict_family());
     let mut r = Rng::new(seed ^ 0xC07);
     let n = if thorough { 3000 } else { 500 };
     for i in 0..n {
@@ -542,7 +628,7 @@ pub fn scenarios(seed: u64, tier: &str) -> Vec<Scenario> {
 
 /// scenario text format (corpus/C07/*.ops and the replay files):
 /// `gp=<n>`, `issue=key:amount,…`, then one round per line
-/// `p=<0|1> gt=<0|1> dt=<ms> priv=<n|i|a|f> txs=payer:fee:hops:big:pad:old,…`
+/// `p=<0|1> gt=<0|1> dt=<ms> priv=<n|i|a|f> txs=payer:fee:hops:big:pad:old:park:conflict,…`
 pub fn parse_scenario(text: &str, name: &str) -> Scenario {
     let mut gp = 5;
     let mut target = 0;
@@ -601,7 +687,7 @@ pub fn parse_scenario(text: &str, name: &str) -> Scenario {
                     for t in x.split(',') {
                         let f: Vec<u64> = t.split(':').filter_map(|y| y.parse().ok()).collect();
                         if f.len() >= 5 {
-                            rd.txs.push(TxPlan { payer: (f[0] % 4) as usize, fee: f[1], hops: (f[2] % 5) as usize, big_input: f[3] == 1, pad: f[4] as usize, old: f.get(5) == Some(&1) });
+                            rd.txs.push(TxPlan { payer: (f[0] % 4) as usize, fee: f[1], hops: (f[2] % 5) as usize, big_input: f[3] == 1, pad: f[4] as usize, old: f.get(5) == Some(&1), park: f.get(6) == Some(&1), conflict: f.get(7) == Some(&1) });
                         }
                     }
                 }
@@ -631,7 +717,7 @@ pub fn scenario_text(s: &Scenario) -> String {
     let iss: Vec<String> = s.issue.iter().map(|(k, a)| format!("{}:{}", k, a)).collect();
     o.push_str(&format!("issue={}\n", iss.join(",")));
     for r in &s.rounds {
-        let txs: Vec<String> = r.txs.iter().map(|t| format!("{}:{}:{}:{}:{}:{}", t.payer, t.fee, t.hops, t.big_input as u8, t.pad, t.old as u8)).collect();
+        let txs: Vec<String> = r.txs.iter().map(|t| format!("{}:{}:{}:{}:{}:{}:{}:{}", t.payer, t.fee, t.hops, t.big_input as u8, t.pad, t.old as u8, t.park as u8, t.conflict as u8)).collect();
         let p = match r.privileged {
             Priv::None => "n",
             Priv::Issuance => "i",
@@ -682,9 +768,23 @@ impl World {
     }
 }
 
-fn build_tx(w: &World, plan: &TxPlan, used: &mut Vec<SaitoUTXOSetKey>, producer_key: u64, next_id: u64, gp: u64, salt: u8) -> Option<Transaction> {
-    let payer = PAYERS[plan.payer];
-    let cands: Vec<Utxo> = if plan.old {
+fn build_tx(w: &World, plan: &TxPlan, used: &mut Vec<SaitoUTXOSetKey>, producer_key: u64, other_node: usize, next_id: u64, gp: u64, salt: u8) -> Option<Transaction> {
+    let mut payer = PAYERS[plan.payer];
+    let cands: Vec<Utxo> = if plan.conflict {
+        // the value input of the pending transaction with the most routing work in the other node's pool
+        let mut pend: Vec<&Transaction> = w.nodes[other_node].mempool.transactions.values().filter(|t| t.transaction_type == TransactionType::Normal && t.from.iter().any(|s| s.amount > 0)).collect();
+        pend.sort_by_key(|t| (t.total_work_for_me, t.total_fees, t.signature.to_vec()));
+        let mut v = vec![];
+        if let Some(t) = pend.last() {
+            if let Some(sl) = t.from.iter().find(|s| s.amount > 0) {
+                if let Some(u) = w.seen.iter().find(|u| u.slip.utxoset_key == sl.utxoset_key) {
+                    payer = u.owner;
+                    v.push(u.clone());
+                }
+            }
+        }
+        v
+    } else if plan.old {
         let mut v: Vec<Utxo> = w
             .seen
             .iter()
@@ -705,7 +805,7 @@ fn build_tx(w: &World, plan: &TxPlan, used: &mut Vec<SaitoUTXOSetKey>, producer_
     let out = u.slip.amount - fee;
     // change goes back to the payer in two slips when large enough (keeps the payers liquid)
     let outputs = if out > 400_000 { vec![(payer, out / 2), (payer, out - out / 2)] } else { vec![(payer, out)] };
-    let mut tx = w.f.make_tx(&TxSpec { inputs: vec![u], outputs, data: { let mut d = vec![salt, next_id as u8]; d.resize(2 + plan.pad, 0x5a); d } });
+    let mut tx = w.f.make_tx(&TxSpec { inputs: vec![u], outputs, data: { let mut d = vec![salt, next_id as u8, plan.conflict as u8]; d.resize(3 + plan.pad, 0x5a); d } });
     // routing path payer → r1 → … → producer, `hops` hops in total
     if plan.hops > 0 {
         let mut chain: Vec<u64> = vec![payer];
@@ -854,9 +954,31 @@ pub async fn run_scenario(sc: &Scenario, seed: u64, e: &mut Emit<'_>) -> Report 
                 used.extend(t.from.iter().map(|s| s.utxoset_key));
             }
         }
+        // transactions parked in the OTHER node's pool (they stay pending there while this round's producer works)
+        let okey = if o == 0 { KEY_A } else { KEY_B };
+        for (ti, plan) in rd.txs.iter().enumerate().filter(|(_, t)| t.park) {
+            if let Some(tx) = build_tx(&w, plan, &mut used, okey, p, next_id, sc.gp, 100 + ti as u8) {
+                let mut probe = tx.clone();
+                probe.generate(&key(okey).0, 0, 0);
+                let valid = probe.validate(&w.nodes[o].blockchain.utxoset, &w.nodes[o].blockchain, true);
+                let n = &mut w.nodes[o];
+                let r = guarded_async(n.mempool.add_transaction_if_validates(tx.clone(), &n.blockchain)).await;
+                let admitted = n.mempool.transactions.contains_key(&tx.signature);
+                // (a refusal only because the input is still reserved in that pool's utxo_map is C14's subject)
+                if valid && !admitted && r.is_ok() {
+                    (e.count)("pool:refused-input-reserved");
+                } else {
+                    (e.case)(&format!("admit {} {}", typ_code(tx.transaction_type), valid as u8), &match r { Ok(_) => format!("{}", admitted as u8), Err(_) => "panic".into() });
+                }
+                (e.count)("tx:parked-in-other-pool");
+            }
+        }
         let mut submitted: Vec<Transaction> = vec![];
-        for (ti, plan) in rd.txs.iter().enumerate() {
-            if let Some(tx) = build_tx(&w, plan, &mut used, pkey, next_id, sc.gp, ti as u8) {
+        for (ti, plan) in rd.txs.iter().enumerate().filter(|(_, t)| !t.park) {
+            if plan.conflict {
+                (e.count)("tx:conflicting-spend-of-pending-input");
+            }
+            if let Some(tx) = build_tx(&w, plan, &mut used, pkey, o, next_id, sc.gp, ti as u8) {
                 (e.count)(&format!("tx:hops={}", plan.hops));
                 (e.count)(&format!("tx:fee-class={}", match tx_fee(&tx) { 0 => "0", 1..=99 => "1-99", 100..=99_999 => "100-99999", _ => ">=100000" }));
                 submitted.push(tx);
